@@ -411,7 +411,10 @@ def abstract(v):
         items = []
         for it in v.all:
             e = it.error
-            err = "none" if e is None else ("full" if e.to_dict() else "empty") if isinstance(e, ErrorObject) else "bad"
+            # (judged on the attributes, not through the SDK's own to_dict(): the projection must not depend on the code under test)
+            err = "none" if e is None else \
+                ("empty" if all(getattr(e, a, None) is None for a in ("message", "type", "data", "stack_trace")) else "full") \
+                if isinstance(e, ErrorObject) else "bad"
             items.append({"st": it.status.value, "r": abstract(it.result), "err": err})
         return {"k": "batch", "c": items, "cr": "ALL_COMPLETED"}     # the reason is compared by typed_repr
     return {"k": "unsupported"}
